@@ -1146,6 +1146,9 @@ pub fn fuzz_campaign(ctx: &Ctx, plan: &FuzzPlan, replay: &dyn Fn(&[u8]) -> Verdi
             .arg(format!("-max_len={}", plan.max_len))
             .arg("-len_control=0")
             .arg(format!("-timeout={}", plan.timeout_s))
+            // safety net only: a campaign that has not finished its executions after this long is
+            // ended; the evidence reports the executions actually made
+            .arg("-max_total_time=1200")
             .arg("-rss_limit_mb=3072")
             .arg(format!("-artifact_prefix={}/", arts.display()))
             .arg("-print_final_stats=1")
